@@ -43,19 +43,20 @@ def showFam (f : Fam) : String :=
   s!"{f.id}:{b2s f.mpEnabled}{b2s f.mpReceived}{b2s f.eor}{b2s f.running}{b2s f.llEnabled}{b2s f.llReceived}{b2s f.llExpired}{b2s f.llRunning}:{f.llTime}"
 
 def showRoute (r : Route) : String :=
-  s!"{r.fam}.{r.key}.{r.ver}.{b2s r.stale}.{r.nLL}.{b2s r.noLL}"
+  s!"{r.fam}.{r.key}.{r.ver}.{b2s r.stale}.{r.nLL}.{b2s r.noLL}.{b2s r.rej}"
 
 def dump (p : Peer) : String :=
   s!"est={b2s p.est} pr={b2s p.peerRestarting} lr={b2s p.localRestarting} llrun={b2s p.llRun} " ++
   s!"en={b2s p.enabled} nb={b2s p.notif} ll={b2s p.longLived} rt={p.restartTime} adv={b2s (needToAdvertise p)} | " ++
-  " ".intercalate (p.fams.map showFam) ++ " | neg=[" ++ " ".intercalate (p.negotiated.map toString) ++ "] | " ++
+  " ".intercalate (p.fams.map showFam) ++ " | neg=[" ++ " ".intercalate (p.negotiated.map toString) ++ "] | cnt " ++
+  " ".intercalate (p.fams.map (fun f => s!"{f.id}:{received p f.id}/{accepted p f.id}")) ++ " | " ++
   " ".intercalate ((sortRoutes p.rib).map showRoute)
 
 def step (s : St) (ts : List String) : St × List String :=
   match ts with
   | "reset" :: gr :: nb :: ll :: dfr :: lr :: nf :: rest =>
     ({ p := { cfgGR := b! gr, cfgNotif := b! nb, cfgLL := b! ll, deferral := nat! dfr,
-              localRestarting := b! lr, fams := parseFams (nat! nf) rest } }, [])
+              cfgLR := b! lr, localRestarting := b! lr, fams := parseFams (nat! nf) rest } }, [])
   | "est" :: gr :: nb :: rb :: tm :: rest =>
     let (tuples, rest1) := takeList rest
     match rest1 with
@@ -75,7 +76,8 @@ def step (s : St) (ts : List String) : St × List String :=
     match nextOf (nat! n) with
     | some x => ({ s with p := GR.step s.p (.goto x (b! ad)) }, [])
     | none => (s, ["bad-op"])
-  | ["ann", f, k, v, nl, n] => ({ s with p := GR.step s.p (.ann (nat! f) (nat! k) (nat! v) (b! nl) (nat! n)) }, [])
+  | ["ann", f, k, v, nl, n, rj] => ({ s with p := GR.step s.p (.ann (nat! f) (nat! k) (nat! v) (b! nl) (nat! n) (b! rj)) }, [])
+  | ["del"] => ({ s with p := GR.step s.p .del }, [])
   | ["wd", f, k] => ({ s with p := GR.step s.p (.wd (nat! f) (nat! k)) }, [])
   | ["eor", f] => ({ s with p := GR.step s.p (.eor (nat! f)) }, [])
   | ["tick", d] => ({ s with p := GR.step s.p (.tick (nat! d)) }, [])
